@@ -27,6 +27,8 @@ type C04Case struct {
 	FP uint     `json:"fp,omitempty"` // big.Float precision
 	FK string   `json:"fk,omitempty"` // big.Float kind: "fin", "+inf", "-inf", "+0", "-0"
 	Al int      `json:"al,omitempty"` // arithmetic: the receiver is operand Al-1 itself (0: a variable of its own)
+	// Zone: an FMA case inside the input zone of known finding F-03c, checked against the two-outcome oracle
+	Zone bool `json:"zone,omitempty"`
 }
 
 var c04Arith = []string{"add", "sub", "mul", "quo", "fma", "sqrt", "neg", "abs", "set", "cmp"}
@@ -71,7 +73,29 @@ func c04MaxDigits() int {
 }
 
 func genC04(t *rapid.T) C04Case {
+	c := genC04base(t)
+	c.Zone = c.Op == "fma" && len(c.A) == 3 && fmaProductOutOfRange(C03Case{X: c.A[0], Y: c.A[1], U: c.A[2]})
+	return c
+}
+
+func genC04base(t *rapid.T) C04Case {
 	c := C04Case{M: h.GenMode(t, "zmode")}
+	if rapid.IntRange(0, 24).Draw(t, "fma03") == 0 {
+		// the FMA generator of C03 (range-end products with zero, infinite and finite addends included), judged
+		// here on class, sign, value and ErrNaN
+		f := genFMA(t, true)
+		al := map[string]int{"x": 1, "y": 2, "u": 3}[f.Alias]
+		if al > 0 {
+			if a := []h.Spec{f.X, f.Y, f.U}[al-1]; a.F == "f" && uint(len(a.D)) > f.P {
+				al = 0
+			}
+		}
+		c = C04Case{Op: "fma", A: []h.Spec{f.X, f.Y, f.U}, P: f.P, M: f.M, Al: al}
+		if al > 0 {
+			c.A[al-1].P, c.A[al-1].M = f.P, f.M
+		}
+		return c
+	}
 	if rapid.IntRange(0, 2).Draw(t, "arith") > 0 {
 		c.Op = rapid.SampledFrom(c04Arith).Draw(t, "op")
 	} else {
@@ -384,6 +408,22 @@ func checkC04(c C04Case, o *h.Obs) *h.Fail {
 		return nil
 	}
 	want, full := c04Want(c)
+	if c.Zone {
+		// known finding F-03c: the fused result or, in full, the result of range-checking the product first
+		o.Label("f03c-zone")
+		o.NonTrivial()
+		two := model.FmaRangeChecked(c.A[0].Val(), c.A[1].Val(), c.A[2].Val(), uint64(c.P), model.Mode(c.M))
+		ok := func(w model.Res) bool {
+			if w.NaN || nan {
+				return w.NaN == nan
+			}
+			return got.Val().Equal(w.V)
+		}
+		if !ok(want) && !ok(two) {
+			return h.Failf("zone", "fma%v prec %d %v: got %v (ErrNaN=%v); the fused result is %v (NaN=%v), with the product range-checked first (F-03c) %v (NaN=%v)", c.A, c.P, model.Mode(c.M), got.Val(), nan, want.V, want.NaN, two.V, two.NaN)
+		}
+		return nil
+	}
 	if !full && c.Op != "sqrt" {
 		if nan {
 			return h.Failf("nan-spurious", "%s panicked with ErrNaN on valid arguments %v", c.Op, c.A)
@@ -594,7 +634,7 @@ const ruleC04 = "two parts. (1) Exhaustive class grid, enumerated on every run: 
 
 var propC04 = &h.Prop[C04Case]{ID: "C04", Rule: ruleC04, Gen: genC04, Check: checkC04, Matchers: map[string]func(C04Case) bool{
 	"fma-product-exp-out-of-range": func(c C04Case) bool {
-		return c.Op == "fma" && len(c.A) == 3 && fmaProductOutOfRange(C03Case{X: c.A[0], Y: c.A[1], U: c.A[2]})
+		return c.Op == "fma" && !c.Zone && len(c.A) == 3 && fmaProductOutOfRange(C03Case{X: c.A[0], Y: c.A[1], U: c.A[2]})
 	}}}
 
 func TestC04(t *testing.T)       { propC04.Search(t) }
